@@ -58,7 +58,10 @@ def handleStruct (j : Json) : Except String Verdict := do
     let path ← getStr b "path"
     let lay ← getStr b "layout"
     if lay != "ok" then
-      -- a layout failure is C17's subject; here it only means there is no "after" to compare
+      -- a layout error is C17's subject; here it only means there is no "after" to compare.  A crash (panic, fatal
+      -- runtime error, no return) while the structure is being taken apart and put together is reported here too.
+      if lay.startsWith "panic" || lay.startsWith "fatal" || lay.startsWith "timeout" then
+        return .specfalse s!"layout-crashed:{engine}" s!"board {path}: {lay}"
       continue
     let before ← sGraph (← getObj b "before")
     let after ← sGraph (← getObj b "after")
